@@ -50,7 +50,11 @@ def mk_sink(stmts, bindings=(), identifier=DefaultGraph):
         s.add(st)
     for p, i in bindings:
         s.bind(p, i)
-    return s
+    # (bindings with a repeated label: the last one wins in a dict, which is what the sink is documented to hold)
+    last = {}
+    for p, i in bindings:
+        last[p] = i
+    return __import__("common").intend(s, identifier, list(last.items()), stmts)
 
 
 def rand_opts(r, cls: str, *, fit_for=None, delimited=None, ns=False, lt=None, explicit_flow=False) -> Opts:
@@ -2585,7 +2589,117 @@ def check_C11(ctx: Ctx) -> None:
                     ctx.fail(f"{kind} source: statements of delivered frames not yielded before more bytes were required "
                              f"(frame {j + 1}/{len(ends)}, ended {ended})",
                              dict(bytes=b.hex(), limit=lim, got=got[:500], want=want[:500]))
+        # a seekable input that is still being appended to (a spool file, a shared buffer): whatever has arrived by the time
+        # the parser asks for it must be delivered — a parser that measured the input once, at the start, stops early
+        full = impl.run_par("flat", False, "seek", b)
+        for lim in r.sample(ends, min(2, len(ends))) + [max(3, ends[0] - 1)]:
+            if lim < 3 or lim >= len(b):
+                continue
+            for kind in ("growing-raw", "growing-buffered", "growing-file"):
+                if kind == "growing-file":
+                    src = io.BufferedReader(impl.GrowingFile(b, lim))
+                else:
+                    src = impl.GrowingSource(b, lim)
+                    if kind == "growing-buffered":
+                        src = io.BufferedReader(src)
+                evs = []
+                try:
+                    for ev in parse_jelly_flat(src):
+                        evs.append(ev)
+                    ended = "end"
+                except Exception as e:  # noqa: BLE001
+                    ended = "!" + type(e).__name__
+                finally:
+                    try:
+                        src.close()
+                    except Exception:  # noqa: BLE001
+                        pass
+                got = events_text(evs) + " " + ended
+                ctx.dist[f"stall:{kind}"] += 1
+                if got != full:
+                    ctx.fail(f"{kind} input ({lim} of {len(b)} bytes present when the parser started, the rest appended before it was asked for): "
+                             f"statements of frames that had arrived were not delivered (ended {ended})",
+                             dict(bytes=b.hex(), visible_at_start=lim, got=got[:500], want=full[:500]))
+    _c11_to_file_raw_sinks(ctx, r)
     _c11_rdflib_stall(ctx, r)
+
+
+class _RawSink(io.RawIOBase):
+    """An unbuffered output stream (a socket, a file opened with buffering=0) that takes everything it is handed."""
+
+    def __init__(self) -> None:
+        super().__init__()
+        self.count = 0
+
+    def writable(self) -> bool:
+        return True
+
+    def write(self, b) -> int:
+        self.count += len(b)
+        return len(b)
+
+
+def _c11_to_file_raw_sinks(ctx: Ctx, r) -> None:
+    """The `*_stream_to_file` entry points writing to an unbuffered output stream: whenever the serializer asks its input for
+    the next statement, every frame completed so far must already have reached the caller's stream (bytes held back in a
+    private buffer are rows held back)."""
+    import rimpl
+    from pyjelly.integrations.generic import serialize as gser
+    from pyjelly.integrations.rdflib import parse as rparse, serialize as rser
+
+    for i in range(ctx.n(40, 400)):
+        cls = r.choice("TQ")
+        integ = "rdflib" if i % 2 else "generic"
+        o = Opts(fs=r.choice([1, 2, 3, 5]), lt={"T": 1, "Q": 2}[cls], gen=integ == "generic", star=integ == "generic", delim=True,
+                 pn=16, pp=8, pd=8)
+        stmts = _rdf11_statements(r, cls, o, r.randint(3, 12)) if integ == "rdflib" else gen_fitting(r, cls, o, r.randint(3, 12))
+        if len(stmts) < 3:
+            continue
+        if integ == "rdflib":
+            data = [tuple(rimpl.to_rdflib(t) for t in st) for st in stmts]
+            data = data if cls == "T" else [rparse.Quad(*st) for st in data]
+            to_frames, to_file = rser.flat_stream_to_frames, rser.flat_stream_to_file
+        else:
+            data, to_frames, to_file = stmts, gser.flat_stream_to_frames, gser.flat_stream_to_file
+        # reference run: which frame is complete after how many pulls, and how many bytes it has on the wire
+        pulls = [0]
+
+        def src(data=data, pulls=pulls, seen=None):
+            for k, st in enumerate(data, 1):
+                pulls[0] = k
+                if seen is not None:
+                    seen.append(sink.count)
+                yield st
+            pulls[0] = len(data) + 1
+            if seen is not None:
+                seen.append(sink.count)
+
+        done = []   # (pulls when the frame was handed out, cumulative bytes up to and including it)
+        total = 0
+        try:
+            for f in to_frames(src(), o.real()):
+                total += len(impl.frames_bytes([f], True))
+                done.append((pulls[0], total))
+        except Exception as e:  # noqa: BLE001
+            ctx.fail(f"{integ} flat_stream_to_frames raised {type(e).__name__}", dict(opts=o.describe(), statements=stmts_text(stmts)[:300]))
+            continue
+        sink, seen = _RawSink(), []
+        try:
+            to_file(src(seen=seen), sink, options=o.real())
+        except Exception as e:  # noqa: BLE001
+            ctx.fail(f"{integ} flat_stream_to_file raised {type(e).__name__} on an unbuffered output stream", dict(opts=o.describe()))
+            continue
+        ctx.case(("to-file-raw", integ, cls, o.token(), stmts_text(stmts)), True)
+        ctx.dist[f"to_file_raw_sink:{integ}"] += 1
+        if sink.count != total:
+            ctx.fail(f"{integ} flat_stream_to_file wrote {sink.count} bytes to an unbuffered stream, the frames have {total}", dict(opts=o.describe()))
+            continue
+        for k, have in enumerate(seen, 1):   # at the k-th pull (k-1 statements consumed)
+            must = max([t for p, t in done if p <= k - 1] or [0])
+            if have < must:
+                ctx.fail(f"{integ} flat_stream_to_file: when statement {k} was asked for, {must} bytes of completed frames existed but "
+                         f"only {have} had reached the (unbuffered) output stream", dict(opts=o.describe(), statements=stmts_text(stmts)[:300]))
+                break
 
 
 # ---------------------------------------------------------------------------------------------
@@ -2614,7 +2728,19 @@ def _c12_data(cls, o, stmts):
     """Sink input with several bindings when declarations are on (their order must not depend on hashing)."""
     if not o.ns:
         return stmts, False
-    return mk_sink(stmts, [(p, IRI(f"http://ns{j}.example/{p}#")) for j, p in enumerate(["zeta", "a", "mid", "b2", "", "x9"])]), True
+    return mk_sink(stmts, _c12_bindings(stmts)), True
+
+
+def _c12_bindings(stmts):
+    """Bindings that differ from workload to workload (a function of the statements): another label set, other IRIs, or none
+    at all — what leaks from one sink or stream into another then shows in the bytes and in the sinks read back."""
+    import zlib
+    k = zlib.crc32(stmts_text(stmts).encode()) % 5
+    if k == 4:
+        return []
+    k = k % 4
+    labels = ["zeta", "a", "mid", "b2", "", "x9"][k: k + 3 + k]
+    return [(p, IRI(f"http://ns{j}-{k}.example/{p}#")) for j, p in enumerate(labels)]
 
 
 def _c12_bytes(work) -> list[bytes]:
@@ -2685,6 +2811,26 @@ def check_C12(ctx: Ctx) -> None:
     ctx.corr("SER", reqs, resp_alone)
     for (cls, o, st), b in zip(work, alone):
         ctx.case((cls, o.token(), stmts_text(st)), True, sample=dict(cls=cls, opts=o.describe(), nbytes=len(b)))
+    # (0b) what was declared for ONE workload is what its reader finds in the sinks built for it — no more (bindings of other
+    # sinks, made before or in between, must not show), through the grouped and the to-graph entry points
+    from pyjelly.integrations.generic.parse import parse_jelly_grouped, parse_jelly_to_graph
+    for (cls, o, st), b in zip(work, alone):
+        if not (o.ns and b and o.delim):
+            continue
+        want_ns = [(p, term_text(i)) for p, i in _c12_bindings(st)]
+        try:
+            sinks = list(parse_jelly_grouped(io.BytesIO(b)))
+            whole = parse_jelly_to_graph(io.BytesIO(b))
+        except Exception as e:  # noqa: BLE001
+            ctx.fail(f"generic grouped / to-graph parse of pyjelly's own output raised {type(e).__name__}", dict(bytes=b.hex()))
+            continue
+        got_first = [(p, term_text(i)) for p, i in (sinks[0].namespaces if sinks else [])]
+        got_rest = [(p, term_text(i)) for sk in sinks[1:] for p, i in sk.namespaces]
+        got_whole = [(p, term_text(i)) for p, i in whole.namespaces]
+        ctx.dist["sinks_read_back_with_bindings"] += 1
+        if got_first != want_ns or got_rest or got_whole != want_ns:
+            ctx.fail("a sink read back carries namespace bindings that its stream did not declare (or lacks declared ones)",
+                     dict(bytes=b.hex(), declared=want_ns, first_sink=got_first, later_sinks=got_rest[:6], to_graph=got_whole))
     # (1) prior history: abandoned streams, then again
     for cls, o, st in work[:6]:
         try:
@@ -2803,6 +2949,10 @@ def check_C12(ctx: Ctx) -> None:
         ctx.fail("a module- or class-level mutable object of pyjelly is mutated at run time", dict(sites=hits["mutations"]))
 
 
+_NONCANONICAL = [("04", gen.XSD + "integer"), ("+7", gen.XSD + "integer"), ("1.50", gen.XSD + "decimal"), ("1.0E0", gen.XSD + "double"),
+                 ("1", gen.XSD + "boolean"), (" 1 ", gen.XSD + "int")]
+
+
 def _c12_rdflib_parsers(ctx: Ctx, r) -> None:
     """Two or three rdflib parsers alive at once, on streams of the same physical type and EQUAL options, stepped in a
     random interleaving: each must yield what it yields alone (flat and grouped; TRIPLES / QUADS / GRAPHS)."""
@@ -2815,12 +2965,20 @@ def _c12_rdflib_parsers(ctx: Ctx, r) -> None:
     def alone_grouped(b):
         return [sorted(rimpl.store_quads(g)) for g in rgrouped(io.BytesIO(b))]
 
+    import rdflib
+
     for trial in range(ctx.n(12, 120)):
         cls = r.choice("TQGG")
         o = Opts(fs=r.choice([1, 2, 250]), lt=0, gen=False, star=False, delim=True, pn=16, pp=8, pd=8)
+        flag_before = rdflib.NORMALIZE_LITERALS
         files = []
         for j in range(r.choice([2, 2, 3])):
             stmts = _rdf11_statements(r, cls, o, r.randint(2, 6))
+            # typed literals in legal but non-canonical lexical forms, early and late in the file (what a process-wide rdflib
+            # setting flipped by ANOTHER parser would rewrite)
+            for pos, (lex, dt) in ((1, r.choice(_NONCANONICAL)), (len(stmts), r.choice(_NONCANONICAL))):
+                extra = (IRI(f"http://c12/s{pos}"), IRI("http://c12/p"), Literal(lex, datatype=dt))
+                stmts.insert(min(pos, len(stmts)), Triple(*extra) if cls == "T" else Quad(*extra, stmts[0][3] if stmts else DefaultGraph))
             if j and r.random() < 0.3:
                 stmts = files[0][0]
             line, b = impl.run_ser_frames(cls, o, stmts, is_sink=False)
@@ -2853,6 +3011,10 @@ def _c12_rdflib_parsers(ctx: Ctx, r) -> None:
                 if got != w:
                     ctx.fail(f"rdflib {mode} parser of a {cls} stream is affected by another parser active at the same time",
                              dict(bytes=[b.hex() for _, b in files], index=k, got=str(got)[:400], want=str(w)[:400]))
+            if rdflib.NORMALIZE_LITERALS != flag_before:
+                ctx.fail(f"parsing changed the process-wide rdflib.NORMALIZE_LITERALS from {flag_before} to {rdflib.NORMALIZE_LITERALS} "
+                         "(every later parser and every other user of rdflib in the process is affected)", dict(mode=mode, cls=cls))
+                rdflib.NORMALIZE_LITERALS = flag_before
 
 
 def _c12_rdflib_defaults(ctx: Ctx, r) -> None:
@@ -3543,6 +3705,12 @@ def check_C17(ctx: Ctx) -> None:
     for declared in (2**32, 2**36, 2**40, 2**62):
         for e in ("flat:seek", "flat:file", "grouped:file", "flat:raw:4096", "flat:raw:1", "rflat:file"):
             inputs.append(("hostile", e, _varint(declared) + body))
+    # a length prefix that never ends: hundreds of kilobytes with the continuation bit set (a varint has at most ten bytes:
+    # refusing is constant work; folding them into one integer is quadratic), at the start and after a valid frame
+    for run in (b"\xff" * 600000, small + b"\xff" * 600000, b"\x80" * 600000):
+        inputs.append(("hostile", "flat:seek", run))
+        inputs.append(("hostile", "flat:raw:4096", run))
+        inputs.append(("hostile", "rflat:seek", run))
     # LAST (a hang costs the worker one of its three strikes): thousands of namespace declarations that re-bind ONE prefix to
     # pairwise different IRIs. The flat parsers only yield Prefix events (linear); the rdflib graph-building entry points hand
     # every declaration to rdflib's Graph.bind(), which looks for a free name p1, p2, ... by linear search: quadratic
@@ -4170,6 +4338,28 @@ def check_C15(ctx: Ctx) -> None:
     ctx.case("corpus:noncanonical-lexical-forms", True)
     if rflat != gflat:
         ctx.fail("rdflib and generic flat parsers disagree on non-canonical lexical forms", dict(bytes=b.hex(), rdflib=rflat[:800], generic=gflat[:800]))
+    # corpus: the same lexical form under language tags that differ only in letter case (equal for rdflib's Literal.__eq__,
+    # different on the wire), on different subjects and in different frames: every entry point must hand back the tag as written
+    for fs in (1, 3, 250):
+        tags = ["de-CH", "de-ch", "DE-CH", "en-GB", "en-gb", "en", "EN"]
+        stmts = [Triple(IRI(f"http://c/s{j}"), IRI("http://c/p"), Literal(lex, langtag=tag))
+                 for j, (lex, tag) in enumerate([(lx, tg) for lx in ("Zürich", "x") for tg in tags])]
+        line, b = impl.run_ser_frames("T", Opts(fs=fs, pn=16, pp=4, pd=4), stmts, is_sink=False)
+        gflat = impl.run_par("flat", False, "seek", b)
+        rflat = rimpl.run_par_flat(False, "seek", b)
+        reqs += [f"par flat 0 0 seek {b.hex()}", f"par flat 0 1 seek {b.hex()}"]
+        resp += [rflat, gflat]
+        ctx.case(("corpus:case-variant-language-tags", fs), True)
+        want = sorted(e[1:] for e in gflat.split(" ")[:-1] if e.startswith("S"))
+        if rflat != gflat or len(want) != len(stmts):
+            ctx.fail("rdflib and generic flat parsers disagree on language tags that differ only in case", dict(bytes=b.hex(), rdflib=rflat[:800], generic=gflat[:800]))
+        sinks, err = rimpl.run_par_grouped(False, "seek", b)
+        store, err2 = rimpl.run_par_graph("seek", b)
+        if err or err2:
+            ctx.fail(f"rdflib grouped/to_graph raised: {err or err2}", dict(bytes=b.hex()))
+        elif sorted(x for sk in sinks for x in sk) != want or sorted(rimpl.store_quads(store)) != want:
+            ctx.fail("rdflib grouped / to_graph change language tags that differ only in case",
+                     dict(bytes=b.hex(), grouped=sorted(x for sk in sinks for x in sk)[:6], to_graph=sorted(rimpl.store_quads(store))[:6], want=want[:6]))
     ctx.corr("PARSE-rdflib", reqs, resp)
     # (c) both serializers, corresponding data, same options: byte-identical
     reqs, resp = [], []
